@@ -365,6 +365,34 @@ def run(ctx):
                 ctx.fail("sync_async_differ:temp", "blocking and awaitable write paths of temperature item %s.%s emit different device writes: %r" % (m["stem"], it["tag"], outs),
                          {"module": m["stem"], "item": it["tag"], "units": units, "writes": outs})
                 break
+    # write-then-read on the real temperature subclass: every value the device can represent (0.1 degF steps, 1/18 degC steps) over the
+    # setpoint range reads back exactly, on both write paths (the float layer itself is C14's model; this is the accessor law on the real class)
+    wt = [(m, it) for (m, it) in temp_items if it["rw"] is not None][:1]
+    for m, it in wt:
+        off = rng.randrange(3)
+        for units in ("C", "F"):
+            for mode in ("sync", "async"):
+                rec = Rec()
+                st = GeckoStructure(rec.sync) if mode == "sync" else GeckoAsyncStructure(rec.sync, rec.asyn)
+                blk = bytearray(1024)
+                blk[1000] = 1 if units == "C" else 0
+                st.set_status_block(bytes(blk))
+                st.accessors = {K.KEY_TEMP_UNITS: A.GeckoEnumStructAccessor(st, K.KEY_TEMP_UNITS, 1000, 0, ["F", "C"], None, 2, "ALL")}
+                a = A.GeckoTempStructAccessor(st, it["tag"], it["pos"], it["rw"])
+                st.accessors[it["tag"]] = a
+                for r in range(270 + (0 if ctx.thorough else off), 721, 1 if ctx.thorough else 3):
+                    v = r / 18.0 if units == "C" else (r + 320) / 10.0
+                    w = drive(st, a, mode, v, rec)
+                    ctx.count("temperature_write_then_read")
+                    nb = apply_write(bytes(blk), w) if w is not None else None
+                    if nb is not None:
+                        st.set_status_block(nb)
+                    back = a.value if nb is not None else None
+                    st.set_status_block(bytes(blk))
+                    if back != v:
+                        ctx.fail("write_read:temp:%s" % units, "temperature item %s.%s: writing %r deg%s (%s path) reads back %r (device write %r)" % (m["stem"], it["tag"], v, units, mode, back, w),
+                                 {"module": m["stem"], "item": it["tag"], "units": units, "written": v, "read_back": back, "device_write": w, "path": mode})
+                        break
     for s in meta[:2] + meta[len(meta) // 2:len(meta) // 2 + 2]:
         ctx.sample({k: (v if k != "block" else v[:12]) for k, v in s.items()})
     res = ctx.coq_cases("corr", HEADER, exprs, shard=300)
